@@ -15,6 +15,8 @@ def run(chk, tier):
     chk.configs.add("default")
     for r in (r_numeric, r_setters, r_fixed, r_names, r_flow, r_whitespace, r_sign_arms, r_own_ranges, r_ampm, r_long_names):
         chk.guarded(r, P, tier)
+    from props import c14
+    chk.guarded(c14.r_offset_used, P, tier)
     chk.guarded(c12.r_numeric_writers, P, tier)
     chk.assume("the round trip itself (for any value), white-space and letter-case perturbations are NOT decided; only that reader and writer agree item by item on width, sign and field")
     return {
